@@ -114,6 +114,11 @@ func (s *Service) All() map[uint64]*core.Endpoint {
 // Suitable returns peers that are suitable given the supplied requirements.
 // At current any peer that is present is considered suitable.
 func (s *Service) Suitable(threshold uint32) ([]*core.Endpoint, error) {
+	// The number of peers requested comes from the client; check it before sizing anything by it.
+	if uint64(threshold) > uint64(len(s.peers)) {
+		return nil, errors.New("not enough suitable peers")
+	}
+
 	suitable := uint32(0)
 	res := make([]*core.Endpoint, threshold)
 	for _, peer := range s.peers {
